@@ -189,4 +189,45 @@ theorem arc3_distance_to_point_nonneg (M : MathOps α)
   rw [arc3_distance_to_point_eq]
   exact (hsqrt _ (Lemmas.dsq3_nonneg _ _)).2
 
+/-! ### The `closest_point` methods are the module functions
+
+`LineSegment2D/3D.closest_point`, `Ray2D/3D.closest_point` and
+`Plane.closest_points_between_line` (segment argument) are generated separately from the class
+files (`Gen/Auto.lean`); they are definitionally the kernels of `intersection2d.py` /
+`intersection3d.py` about which `Props/C12` proves on-object, minimality, zero-iff-on-object and
+non-expansiveness.  A change of the *method* (argument order, a different helper, a local
+re-implementation) breaks these equalities. -/
+
+omit [IsStrictOrderedRing α] in
+theorem seg2_closest_point_eq (l : LR2 α) (q : V2 α) :
+    a_seg2d_closest_point l q = closest_point2d_on_line2d_s q l := rfl
+
+omit [IsStrictOrderedRing α] in
+theorem ray2_closest_point_eq (l : LR2 α) (q : V2 α) :
+    a_ray2d_closest_point l q = closest_point2d_on_line2d_r q l := rfl
+
+omit [IsStrictOrderedRing α] in
+theorem seg3_closest_point_eq (l : LR3 α) (q : V3 α) :
+    a_seg3d_closest_point l q = closest_point3d_on_line3d_s q l := rfl
+
+omit [IsStrictOrderedRing α] in
+theorem ray3_closest_point_eq (l : LR3 α) (q : V3 α) :
+    a_ray3d_closest_point l q = closest_point3d_on_line3d_r q l := rfl
+
+omit [IsStrictOrderedRing α] in
+theorem plane_closest_points_between_line_eq (pl : PlaneS α) (l : LR3 α) :
+    a_plane_closest_points_between_line pl l = closest_point3d_between_line3d_plane_s l pl := rfl
+
+/-- `LineSegment2D.closest_point` lies on the segment and no point of the segment is closer. -/
+theorem seg2_closest_point_method_spec (l : LR2 α) (q x : V2 α) (hx : OnSeg2 l x) :
+    OnSeg2 l (a_seg2d_closest_point l q) ∧
+      distSq2 q (a_seg2d_closest_point l q) ≤ distSq2 q x :=
+  ⟨closest_point2d_on_line2d_s_on_object q l, closest_point2d_on_line2d_s_minimal q l x hx⟩
+
+/-- `Ray3D.closest_point` lies on the ray and no point of the ray is closer. -/
+theorem ray3_closest_point_method_spec (l : LR3 α) (q x : V3 α) (hx : OnRay3 l x) :
+    OnRay3 l (a_ray3d_closest_point l q) ∧
+      distSq3 q (a_ray3d_closest_point l q) ≤ distSq3 q x :=
+  ⟨closest_point3d_on_line3d_r_on_object q l, closest_point3d_on_line3d_r_minimal q l x hx⟩
+
 end Lbg.Props.C12h
